@@ -205,7 +205,12 @@ def gen_hmf_solve(ctx):
         K = 2
         N = rng.randint(12, 16)
         M = rng.randint(6, 9)
-        s = lowrank(rng, N, M, 3, positive=True)
+        noise = 0.02
+        if SEEDS[len(calls) % len(SEEDS)] == 0:
+            # determinism probes (seed 0): more spectra, more components, more noise, so that the k-means
+            # initialisation really depends on the random numbers it draws
+            K, N, M, noise = 3, rng.randint(24, 30), rng.randint(16, 20), 0.5
+        s = lowrank(rng, N, M, 4 if K == 3 else 3, positive=True, noise=noise)
         w = [[(0.0 if rng.random() < 0.05 else dy(rng, 0.5, 2, 1)) for _ in range(M)] for _ in range(N)]
         for j in range(M):
             w[rng.randrange(N)][j] = 1.0
